@@ -4,6 +4,8 @@ import (
 	"errors"
 	"fmt"
 	"math/rand"
+	"sort"
+	"strings"
 
 	"github.com/onflow/atree"
 
@@ -14,158 +16,746 @@ func init() { streams["callbackfail"] = callbackFailStream }
 
 var errCallback = errors.New("caller-supplied component failed")
 
+// deltaKeys renders the pending write set: every key, with a marker for pending deletions.
+func deltaKeys(ps *atree.PersistentSlabStorage) string {
+	d := atree.VerifDeltas(ps)
+	ids := make([]atree.SlabID, 0, len(d))
+	for id := range d {
+		ids = append(ids, id)
+	}
+	hx.SortIDs(ids)
+	parts := make([]string, len(ids))
+	for i, id := range ids {
+		parts[i] = hx.IDStr(id)
+		if d[id] == nil {
+			parts[i] += "=nil"
+		}
+	}
+	return fmt.Sprintf("deltas(%d)[%s]", ps.Deltas(), strings.Join(parts, " "))
+}
+
+// cbMap is one map of a callback-failure program.
+type cbMap struct {
+	name  string
+	m     *atree.OrderedMap
+	b     atree.DigesterBuilder
+	hip   atree.HashInputProvider
+	nKeys int
+}
+
+func (c *cbMap) key(rng *rand.Rand) hx.TV { return hx.TV{Size: 9, Pay: uint64(1 + rng.Intn(c.nKeys+20))} }
+
+type cbEnv struct {
+	st       *hx.Stats
+	cfg      *Config
+	rng      *rand.Rand
+	p        int
+	T        uint32
+	ledger   *hx.Ledger
+	ps       *atree.PersistentSlabStorage
+	rec      *hx.RecStorage
+	maps     []*cbMap
+	arr      *atree.Array
+	arrLen   int
+	distinct map[string]bool
+	poisoned bool // a storage failure after the lookup phase left a half-applied change: stop using these containers
+}
+
+func (e *cbEnv) viol(what string) {
+	e.st.Violations = append(e.st.Violations, hx.Violation{Property: "C18", Stream: "callbackfail", Seed: e.cfg.Seed, Program: e.p, What: what})
+}
+
+// snapshot: every slab of every container as the storage serves it now + the exact pending write set.
+func (e *cbEnv) snapshot() string {
+	var parts []string
+	for _, c := range e.maps {
+		parts = append(parts, hx.DumpTree(e.ps, atree.VerifMapRoot(c.m)))
+	}
+	parts = append(parts, hx.DumpTree(e.ps, atree.VerifArrayRoot(e.arr)), deltaKeys(e.ps))
+	return strings.Join(parts, "\n")
+}
+
+// check: a request during which an injected failure fired must fail with an External error that
+// keeps the cause, must not have called SlabStorage, and must leave every container and the pending
+// write set as they were.
+func (e *cbEnv) check(what string, fired bool, err error, before string) {
+	e.st.Ops++
+	if !fired {
+		e.rec.Reset()
+		return // the failing call was not reached
+	}
+	e.st.Hit(what)
+	defer e.rec.Reset()
+	if err == nil {
+		e.viol(what + ": the caller-supplied component failed but the request succeeded")
+		return
+	}
+	e.distinct[what+hx.ErrKind(err)] = true
+	if hx.ErrCategory(err) != "External" {
+		e.viol(fmt.Sprintf("%s: failure of a caller-supplied component reported as %s", what, hx.ErrKind(err)))
+	}
+	if !errors.Is(err, errCallback) && !errors.Is(err, hx.ErrInjected) {
+		e.viol(fmt.Sprintf("%s: the cause is not preserved in the error chain: %v", what, err))
+	}
+	if len(e.rec.Effs) != 0 {
+		e.viol(fmt.Sprintf("%s: a failed request touched storage: %s", what, hx.NetEffect(e.rec.Effs)))
+	}
+	if after := e.snapshot(); after != before {
+		e.viol(fmt.Sprintf("%s: a failed request changed a container or the pending write set", what))
+	}
+}
+
 // callbackFailStream injects a failure into each caller-supplied component (key comparator,
-// hash-input provider, ledger read) at each call made during lookups and checks that the failure
-// surfaces as an External error and leaves the container and the pending write set untouched.
+// hash-input provider, ledger read, SlabStorage read) at each call made during map and array requests
+// and iterations, and checks that the failure surfaces as an External error and leaves the containers
+// and the pending write set untouched.  It also asks for the undefined identifier and probes the
+// collision limit with a failing comparator (audit a2 / F4: counted as an observation).
 func callbackFailStream(cfg *Config) *hx.Stats {
 	st := hx.NewStats("callbackfail", cfg.Seed)
 	rng := rand.New(rand.NewSource(cfg.Seed*977 + 1))
-	viol := func(p int, what string) {
-		st.Violations = append(st.Violations, hx.Violation{Property: "C18", Stream: "callbackfail", Seed: cfg.Seed, Program: p, What: what})
-	}
 	nProg := int(6 * cfg.Scale)
+	if nProg < 1 {
+		nProg = 1
+	}
 	distinct := map[string]bool{}
-	for p := 0; p < nProg; p++ {
-		T := []uint32{256, 512, 1024}[p%3]
-		atree.VerifSetThreshold(T)
-		ledger := hx.NewLedger()
-		ps := hx.NewStorage(ledger)
-		rec := hx.NewRecStorage(ps)
-		// a map with collisions (so that lookups call the comparator several times)
-		salt := uint64(rng.Int63())
-		b := &hx.TableDigesterBuilder{L: 3, Fn: func(k hx.TV, l uint) uint64 {
-			return mix(k.Pay, uint64(l), salt) % []uint64{6, 2, 2}[l] * 7
-		}}
-		m, err := atree.NewMap(rec, hx.MkAddr(1), b, hx.TI(3))
-		if err != nil {
-			st.HarnessErr = err.Error()
-			return st
-		}
-		nKeys := 40 + rng.Intn(60)
-		for i := 0; i < nKeys; i++ {
-			if _, err := m.Set(hx.CompareKey, hx.HashInput, hx.TV{Size: 9, Pay: uint64(i + 1)}, hx.TV{Size: 12, Pay: uint64(1000 + i)}); err != nil {
-				st.HarnessErr = "setup: " + err.Error()
-				return st
-			}
-		}
-		a, _ := atree.NewArray(rec, hx.MkAddr(1), hx.TI(4))
-		for i := 0; i < 200; i++ {
-			_ = a.Append(hx.TV{Size: 20, Pay: uint64(i)})
-		}
-		if err := ps.FastCommit(2); err != nil {
-			st.HarnessErr = "setup commit: " + err.Error()
-			return st
+	for p := 0; p < nProg && len(st.Violations) <= 20 && st.HarnessErr == ""; p++ {
+		e := &cbEnv{st: st, cfg: cfg, rng: rng, p: p, T: []uint32{256, 512, 1024}[p%3], distinct: distinct}
+		if !e.setup() {
+			break
 		}
 		st.Programs++
-		snapshot := func() string {
-			return hx.DumpTree(ps, atree.VerifMapRoot(m)) + "\n" + hx.DumpTree(ps, atree.VerifArrayRoot(a)) +
-				fmt.Sprintf("\ndeltas=%d", ps.Deltas())
+		for trial := 0; trial < 260 && len(st.Violations) <= 20 && st.HarnessErr == ""; trial++ {
+			e.trial(trial)
+			if e.poisoned {
+				// a half-applied change was left behind (observation): continue on fresh containers
+				e = &cbEnv{st: st, cfg: cfg, rng: rng, p: p, T: e.T, distinct: distinct}
+				if !e.setup() {
+					break
+				}
+			}
 		}
-		fired := false
-		check := func(what string, err error, before string) {
-			st.Ops++
-			st.Hit(what)
-			if !fired {
-				rec.Reset()
-				return // the failing call was not reached
-			}
-			if err == nil {
-				viol(p, what+": the caller-supplied component failed but the request succeeded")
-				return
-			}
-			distinct[what+hx.ErrKind(err)] = true
-			if hx.ErrCategory(err) != "External" {
-				viol(p, fmt.Sprintf("%s: failure of a caller-supplied component reported as %s", what, hx.ErrKind(err)))
-			}
-			if !errors.Is(err, errCallback) && !errors.Is(err, hx.ErrInjected) {
-				viol(p, fmt.Sprintf("%s: the cause is not preserved in the error chain: %v", what, err))
-			}
-			if len(rec.Effs) != 0 {
-				viol(p, fmt.Sprintf("%s: a failed lookup touched storage: %s", what, hx.NetEffect(rec.Effs)))
-			}
-			if after := snapshot(); after != before {
-				viol(p, fmt.Sprintf("%s: a failed lookup changed the container or the write set", what))
-			}
-			rec.Reset()
+		if st.HarnessErr != "" {
+			break
 		}
-		for trial := 0; trial < 60; trial++ {
-			k := hx.TV{Size: 9, Pay: uint64(1 + rng.Intn(nKeys+20))}
-			failAt := 1 + rng.Intn(4)
-			calls := 0
-			cmp := func(s atree.SlabStorage, v atree.Value, st atree.Storable) (bool, error) {
-				calls++
-				if calls == failAt {
-					fired = true
-					return false, errCallback
-				}
-				return hx.CompareKey(s, v, st)
+		e.undefinedIDs()
+		e.limitProbe()
+		e.partialChangeProbe()
+	}
+	if st.HarnessErr == "" && len(st.Violations) == 0 {
+		var missing []string
+		for _, t := range callbackRequired {
+			if st.Dist[t] == 0 {
+				missing = append(missing, t)
 			}
-			hip := func(v atree.Value, buf []byte) ([]byte, error) { fired = true; return nil, errCallback }
-			fired = false
-			before := snapshot()
-			rec.Reset()
-			switch trial % 6 {
-			case 0:
-				_, err := m.Get(cmp, hx.HashInput, k)
-				check("map.Get/comparator", err, before)
-			case 1:
-				_, err := m.Has(cmp, hx.HashInput, k)
-				check("map.Has/comparator", err, before)
-			case 2:
-				_, _, err := m.Remove(cmp, hx.HashInput, k)
-				check("map.Remove/comparator", err, before)
-			case 3:
-				// the default digester builder calls the hash-input provider
-				dm, err := atree.NewMap(rec, hx.MkAddr(2), atree.NewDefaultDigesterBuilder(), hx.TI(5))
-				if err == nil {
-					rec.Reset()
-					before = snapshot()
-					_, err = dm.Get(hx.CompareKey, hip, k)
-					check("map.Get/hash-input", err, before)
-					_ = ps.Remove(dm.SlabID())
-				}
-			case 4:
-				// ledger read failure while descending an array whose slabs are not loaded
-				ps.DropCache()
-				before = snapshot()
-				ps.DropCache()
-				for id := range ledger.Seg {
-					if id != a.SlabID() && rng.Intn(3) == 0 {
-						ledger.ReadFail[id] = true
-					}
-				}
-				rec.Reset()
-				fresh, err := atree.NewArrayWithRootID(rec, a.SlabID())
-				if err == nil {
-					_, err = fresh.Get(uint64(rng.Intn(200)))
-				}
-				ledger.ReadFail = map[atree.SlabID]bool{}
-				st.Ops++
-				st.Hit("array.Get/ledger-read")
-				if err != nil {
-					distinct["ledger"+hx.ErrKind(err)] = true
-					if hx.ErrCategory(err) != "External" {
-						viol(p, "array.Get: ledger read failure reported as "+hx.ErrKind(err))
-					}
-					if len(rec.Effs) != 0 {
-						viol(p, "array.Get: failed read touched storage")
-					}
-				}
-				a, _ = atree.NewArrayWithRootID(rec, a.SlabID())
-				m, _ = atree.NewMapWithRootID(rec, m.SlabID(), b)
-				rec.Reset()
-			case 5:
-				_, err := m.Set(cmp, hx.HashInput, k, hx.TV{Size: 12, Pay: 7})
-				if fired {
-					check("map.Set/comparator", err, before)
-				} else {
-					rec.Reset()
-				}
-			}
+		}
+		if len(missing) > 0 {
+			st.HarnessErr = "callback failures never reached: " + strings.Join(missing, "; ")
 		}
 	}
 	st.Distinct = len(distinct) + 1
-	st.Samples = append(st.Samples, "map with collision groups (3 digest levels, tiny alphabets) + 200-element array; comparator failing at call 1..4 of Get/Has/Remove/Set, hash-input provider failing, ledger reads failing for random unloaded slabs")
+	st.Samples = append(st.Samples, "three maps (collision groups on 3 levels incl. external groups; mostly non-colliding keys over several slabs; the library's digester) + a 200-element array; comparator failing at call 1..4 of Get/Has/Remove/Set and of mutable iterations, hash-input provider failing (first call, re-hash of the resident key, iterations), ledger reads and SlabStorage reads failing for unloaded slabs during map and array requests, slab iterator and batch preload; undefined identifier requests; collision-limit probe with a failing comparator")
 	atree.VerifSetThreshold(1024)
+	atree.VerifSetMaxCollisionLimitPerDigest(255)
 	return st
+}
+
+// injected failures that every run must have seen fire (otherwise: harness error)
+var callbackRequired = []string{
+	"map.Get/comparator/sparse", "map.Set/comparator/sparse", "map.Remove/comparator/sparse", "map.Has/comparator/sparse",
+	"map.Get/comparator/collide", "map.Set/comparator/collide", "map.Remove/comparator/collide",
+	"map.Get/hash-input/real", "map.Set/hash-input/real", "map.Remove/hash-input/real", "map.Has/hash-input/real",
+	"map.Set/hash-input/collide", "map.Remove/hash-input/sparse",
+	"map.Iterate/hash-input", "map.IterateKeys/hash-input", "map.IterateValues/hash-input", "map.Iterate/comparator",
+	"map.Set/hash-input-of-resident-key",
+	"map.Get/ledger-read", "map.Set/ledger-read", "map.Remove/ledger-read", "map.Has/ledger-read",
+	"map.Get/storage-read", "map.Set/storage-read", "map.Remove/storage-read",
+	"array.Get/ledger-read", "array.Set/ledger-read", "array.Insert/ledger-read", "array.Remove/ledger-read",
+	"storage.SlabIterator/ledger-read", "storage.BatchPreload/ledger-read",
+	"undefined-id:NewArrayWithRootID", "undefined-id:NewMapWithRootID", "undefined-id:Store", "undefined-id:Remove", "undefined-id:Retrieve",
+	"limit-probe:control-refused",
+	"partial-change-probe:map.Remove", "partial-change-probe:array.Remove",
+}
+
+func (e *cbEnv) setup() bool {
+	atree.VerifSetThreshold(e.T)
+	atree.VerifSetMaxCollisionLimitPerDigest(255)
+	e.ledger = hx.NewLedger()
+	e.ps = hx.NewStorage(e.ledger)
+	e.rec = hx.NewRecStorage(e.ps)
+	rng := e.rng
+	salt := uint64(rng.Int63())
+	// collide: collisions on every level (lookups call the comparator several times; groups get exported)
+	collide := &hx.TableDigesterBuilder{L: 3, CallHip: true, Fn: func(k hx.TV, l uint) uint64 {
+		return mix(k.Pay, uint64(l), salt) % []uint64{6, 2, 2}[l] * 7
+	}}
+	// sparse: most keys alone under their first-level digest (singleElement.Get/Set/Remove meet the
+	// comparator), one key in eight shares a digest with others
+	sparse := &hx.TableDigesterBuilder{L: 3, CallHip: true, Fn: func(k hx.TV, l uint) uint64 {
+		if l == 0 {
+			if k.Pay%8 == 0 {
+				return (k.Pay % 24) * 1000003
+			}
+			return k.Pay*1000003 + 1
+		}
+		return mix(k.Pay, uint64(l), salt) % 3
+	}}
+	mk := func(name string, addr uint64, b atree.DigesterBuilder, n int) bool {
+		m, err := atree.NewMap(e.rec, hx.MkAddr(addr), b, hx.TI(3))
+		if err != nil {
+			e.st.HarnessErr = err.Error()
+			return false
+		}
+		for i := 0; i < n; i++ {
+			v := hx.TV{Size: 12, Pay: uint64(1000 + i)}
+			if i%37 == 5 {
+				v = hx.TV{Size: e.T, Pay: uint64(i)} // a value in its own slab
+			}
+			if _, err := m.Set(hx.CompareKey, hx.HashInput, hx.TV{Size: 9, Pay: uint64(i + 1)}, v); err != nil {
+				e.st.HarnessErr = "setup: " + err.Error()
+				return false
+			}
+		}
+		e.maps = append(e.maps, &cbMap{name: name, m: m, b: b, hip: hx.HashInput, nKeys: n})
+		return true
+	}
+	if !mk("collide", 1, collide, 40+rng.Intn(60)) || !mk("sparse", 2, sparse, 120+rng.Intn(200)) ||
+		!mk("real", 3, atree.NewDefaultDigesterBuilder(), 60+rng.Intn(120)) {
+		return false
+	}
+	a, err := atree.NewArray(e.rec, hx.MkAddr(1), hx.TI(4))
+	if err != nil {
+		e.st.HarnessErr = err.Error()
+		return false
+	}
+	for i := 0; i < 200; i++ {
+		_ = a.Append(hx.TV{Size: 20, Pay: uint64(i)})
+	}
+	e.arr, e.arrLen = a, 200
+	if err := e.ps.FastCommit(2); err != nil {
+		e.st.HarnessErr = "setup commit: " + err.Error()
+		return false
+	}
+	e.rec.Reset()
+	return true
+}
+
+// mapRequest issues one request; kind in Get Has Remove Set.
+func mapRequest(c *cbMap, kind string, cmp atree.ValueComparator, hip atree.HashInputProvider, k hx.TV, pay uint64) error {
+	switch kind {
+	case "Get":
+		_, err := c.m.Get(cmp, hip, k)
+		return err
+	case "Has":
+		_, err := c.m.Has(cmp, hip, k)
+		return err
+	case "Remove":
+		_, _, err := c.m.Remove(cmp, hip, k)
+		return err
+	}
+	_, err := c.m.Set(cmp, hip, k, hx.TV{Size: 12, Pay: pay})
+	return err
+}
+
+var mapKinds = []string{"Get", "Has", "Remove", "Set"}
+
+func (e *cbEnv) trial(trial int) {
+	rng := e.rng
+	c := e.maps[rng.Intn(len(e.maps))]
+	kind := mapKinds[rng.Intn(4)]
+	k := c.key(rng)
+	failAt := 1 + rng.Intn(4)
+	calls, fired := 0, false
+	cmp := func(s atree.SlabStorage, v atree.Value, st atree.Storable) (bool, error) {
+		calls++
+		if calls == failAt {
+			fired = true
+			return false, errCallback
+		}
+		return hx.CompareKey(s, v, st)
+	}
+	hcalls := 0
+	hip := func(v atree.Value, buf []byte) ([]byte, error) {
+		hcalls++
+		if hcalls == failAt {
+			fired = true
+			return nil, errCallback
+		}
+		return hx.HashInput(v, buf)
+	}
+	e.rec.Reset()
+	switch trial % 8 {
+	case 0, 1:
+		before := e.snapshot()
+		err := mapRequest(c, kind, cmp, c.hip, k, uint64(trial))
+		e.check("map."+kind+"/comparator/"+c.name, fired, err, before)
+	case 2:
+		failAt = 1
+		before := e.snapshot()
+		err := mapRequest(c, kind, hx.CompareKey, hip, k, uint64(trial))
+		e.check("map."+kind+"/hash-input/"+c.name, fired, err, before)
+	case 3:
+		// mutable iterations look every key up again: both callbacks are called once per element
+		failAt = 1 + rng.Intn(12)
+		before := e.snapshot()
+		var err error
+		what := ""
+		n := 0
+		switch rng.Intn(4) {
+		case 0:
+			what = "map.Iterate/hash-input"
+			err = c.m.Iterate(hx.CompareKey, hip, func(k, v atree.Value) (bool, error) { n++; return true, nil })
+		case 1:
+			what = "map.IterateKeys/hash-input"
+			err = c.m.IterateKeys(hx.CompareKey, hip, func(k atree.Value) (bool, error) { n++; return true, nil })
+		case 2:
+			what = "map.IterateValues/hash-input"
+			err = c.m.IterateValues(hx.CompareKey, hip, func(v atree.Value) (bool, error) { n++; return true, nil })
+		default:
+			what = "map.Iterate/comparator"
+			err = c.m.Iterate(cmp, c.hip, func(k, v atree.Value) (bool, error) { n++; return true, nil })
+		}
+		e.check(what, fired, err, before)
+	case 4:
+		e.ledgerRead(c, kind, k, trial)
+	case 5:
+		e.arrayLedgerRead(trial)
+	case 6:
+		// the SlabStorage handed to the container fails its n-th read
+		before := e.snapshot()
+		e.rec.Reset()
+		e.rec.Retrieves, e.rec.FailRetrieveAt, e.rec.EffsAtFail = 0, 1+rng.Intn(3), 0
+		err := mapRequest(c, kind, hx.CompareKey, c.hip, k, uint64(trial))
+		fired = e.rec.Retrieves >= e.rec.FailRetrieveAt
+		e.rec.FailRetrieveAt = 0
+		if fired && e.rec.EffsAtFail > 0 {
+			// the read that failed came AFTER the lookup: the request had already changed and stored a
+			// slab and was fetching a sibling to merge / rebalance with (see partialChangeProbe)
+			e.afterLookupFailure("map."+kind, err)
+			return
+		}
+		e.check("map."+kind+"/storage-read", fired, err, before)
+	case 7:
+		if trial%16 == 7 {
+			e.residentKeyRehash(trial)
+		} else {
+			e.storageWideReads(trial)
+		}
+	}
+}
+
+// nonRootRegisters: every register except the containers' roots (which the handles hold).
+func (e *cbEnv) failAllButRoots() {
+	roots := map[atree.SlabID]bool{e.arr.SlabID(): true}
+	for _, c := range e.maps {
+		roots[c.m.SlabID()] = true
+	}
+	for id := range e.ledger.Seg {
+		if !roots[id] {
+			e.ledger.ReadFail[id] = true
+		}
+	}
+	e.ledger.ReadFailHits = 0
+}
+
+// ledgerRead: the slabs below the root are not loaded and the ledger fails to deliver them.
+func (e *cbEnv) ledgerRead(c *cbMap, kind string, k hx.TV, trial int) {
+	before := e.snapshot()
+	if e.ps.Deltas() != 0 {
+		// make every slab readable from the ledger only
+		if err := e.ps.FastCommit(2); err != nil {
+			e.st.HarnessErr = "commit: " + err.Error()
+			return
+		}
+		before = e.snapshot()
+	}
+	e.ps.DropCache()
+	e.failAllButRoots()
+	e.rec.Reset()
+	err := mapRequest(c, kind, hx.CompareKey, c.hip, k, uint64(trial))
+	fired := e.ledger.ReadFailHits > 0
+	e.ledger.ReadFail = map[atree.SlabID]bool{}
+	e.check("map."+kind+"/ledger-read", fired, err, before)
+}
+
+func (e *cbEnv) arrayLedgerRead(trial int) {
+	before := e.snapshot()
+	if e.ps.Deltas() != 0 {
+		if err := e.ps.FastCommit(2); err != nil {
+			e.st.HarnessErr = "commit: " + err.Error()
+			return
+		}
+		before = e.snapshot()
+	}
+	e.ps.DropCache()
+	e.failAllButRoots()
+	e.rec.Reset()
+	n := int(e.arr.Count())
+	i := uint64(e.rng.Intn(n))
+	var err error
+	kind := []string{"Get", "Set", "Insert", "Remove"}[trial/8%4]
+	switch kind {
+	case "Get":
+		_, err = e.arr.Get(i)
+	case "Set":
+		_, err = e.arr.Set(i, hx.TV{Size: 20, Pay: uint64(trial)})
+	case "Insert":
+		err = e.arr.Insert(i, hx.TV{Size: 20, Pay: uint64(trial)})
+	default:
+		_, err = e.arr.Remove(i)
+	}
+	fired := e.ledger.ReadFailHits > 0
+	e.ledger.ReadFail = map[atree.SlabID]bool{}
+	e.check("array."+kind+"/ledger-read", fired, err, before)
+}
+
+// storageWideReads: slab iteration and batch preload over registers the ledger fails to deliver.
+func (e *cbEnv) storageWideReads(trial int) {
+	before := e.snapshot()
+	if e.ps.Deltas() != 0 {
+		if err := e.ps.FastCommit(2); err != nil {
+			e.st.HarnessErr = "commit: " + err.Error()
+			return
+		}
+		before = e.snapshot()
+	}
+	e.ps.DropCache()
+	e.failAllButRoots()
+	e.rec.Reset()
+	ids := e.ledger.SortedIDs()
+	var err error
+	what := ""
+	if trial%3 == 0 {
+		what = "storage.BatchPreload/ledger-read"
+		workers := []int{1, 2, 8}[e.rng.Intn(3)]
+		if e.rng.Intn(2) == 0 && len(ids) > 8 {
+			ids = ids[:8] // below the threshold of the parallel path
+		}
+		err = e.ps.BatchPreload(ids, workers)
+	} else {
+		what = "storage.SlabIterator/ledger-read"
+		// load the tree slabs (not the value slabs their elements refer to), then iterate
+		e.ledger.ReadFail = map[atree.SlabID]bool{}
+		_ = e.snapshot()
+		e.failAllButRoots()
+		_, err = e.ps.SlabIterator()
+	}
+	fired := e.ledger.ReadFailHits > 0
+	e.ledger.ReadFail = map[atree.SlabID]bool{}
+	// a preload may have cached the slabs it could read; containers and write set must be unchanged
+	e.check(what, fired, err, before)
+}
+
+// residentKeyRehash: a new key meets a single resident key with the same first-level digest; the
+// library asks the hash-input provider for the RESIDENT key's input (second call) to build the group.
+func (e *cbEnv) residentKeyRehash(trial int) {
+	bucketHip := func(fail *bool, failAt int) atree.HashInputProvider {
+		n := 0
+		return func(v atree.Value, buf []byte) ([]byte, error) {
+			n++
+			if n == failAt {
+				*fail = true
+				return nil, errCallback
+			}
+			return hx.HashInputBucket(v, buf)
+		}
+	}
+	m, err := atree.NewMap(e.rec, hx.MkAddr(4), atree.NewDefaultDigesterBuilder(), hx.TI(9))
+	if err != nil {
+		e.st.HarnessErr = err.Error()
+		return
+	}
+	c := &cbMap{name: "bucket", m: m, nKeys: 0}
+	e.maps = append(e.maps, c)
+	defer func() {
+		_ = m.PopIterate(func(k, v atree.Storable) {})
+		_ = e.ps.Remove(m.SlabID())
+		e.maps = e.maps[:len(e.maps)-1]
+		e.rec.Reset()
+	}()
+	if _, err := m.Set(hx.CompareKey, hx.HashInputBucket, hx.TV{Size: 9, Pay: 7}, hx.TV{Size: 12, Pay: 1}); err != nil {
+		e.st.HarnessErr = "setup: " + err.Error()
+		return
+	}
+	e.rec.Reset()
+	fired := false
+	before := e.snapshot()
+	_, err = m.Set(hx.CompareKey, bucketHip(&fired, 2), hx.TV{Size: 9, Pay: 14}, hx.TV{Size: 12, Pay: 2})
+	e.check("map.Set/hash-input-of-resident-key", fired, err, before)
+}
+
+// undefinedIDs: requests naming the undefined identifier are refused with the identifier error
+// (a fatal error by the table of errors.go) and change nothing.
+func (e *cbEnv) undefinedIDs() {
+	want := "SlabIDUndefined:Fatal"
+	before := e.snapshot()
+	e.rec.Reset()
+	one := func(what string, err error) {
+		e.st.Ops++
+		e.st.Hit("undefined-id:" + what)
+		e.distinct["undef"+what+hx.ErrKind(err)] = true
+		if err == nil {
+			e.viol(what + " with the undefined identifier was accepted")
+		} else if hx.ErrKind(err) != want {
+			e.viol(fmt.Sprintf("%s with the undefined identifier reported %s, want %s", what, hx.ErrKind(err), want))
+		}
+		if len(e.rec.Effs) != 0 && what != "Store" && what != "Remove" {
+			e.viol(what + " with the undefined identifier touched storage: " + hx.NetEffect(e.rec.Effs))
+		}
+		if after := e.snapshot(); after != before {
+			e.viol(what + " with the undefined identifier changed a container or the pending write set")
+		}
+		e.rec.Reset()
+	}
+	_, err := atree.NewArrayWithRootID(e.rec, atree.SlabIDUndefined)
+	one("NewArrayWithRootID", err)
+	_, err = atree.NewMapWithRootID(e.rec, atree.SlabIDUndefined, e.maps[0].b)
+	one("NewMapWithRootID", err)
+	s, _, _ := e.ps.Retrieve(e.arr.SlabID())
+	one("Store", e.ps.Store(atree.SlabIDUndefined, s))
+	one("Remove", e.ps.Remove(atree.SlabIDUndefined))
+	// a lookup of the undefined identifier finds nothing (and must not fail in any other way)
+	got, found, err := e.ps.Retrieve(atree.SlabIDUndefined)
+	e.st.Ops++
+	e.st.Hit("undefined-id:Retrieve")
+	if found || got != nil {
+		e.viol("Retrieve of the undefined identifier found a slab")
+	}
+	if err != nil && hx.ErrKind(err) != want {
+		e.viol("Retrieve of the undefined identifier reported " + hx.ErrKind(err))
+	}
+	if after := e.snapshot(); after != before {
+		e.viol("Retrieve of the undefined identifier changed a container or the pending write set")
+	}
+	if e.ps.RetrieveIfLoaded(atree.SlabIDUndefined) != nil {
+		e.viol("RetrieveIfLoaded of the undefined identifier found a slab")
+	}
+}
+
+// limitProbe (audit a2 / F4): the collision limit is reached and a NEW colliding key is set with a
+// comparator (or a storage read) that fails once, at call 1..4.  hkeyElements.Set probes the resident
+// element with elem.Get and acts on KeyNotFound only: any other error of the probe is dropped, the
+// insert proceeds and the limit is bypassed.  This is what the unchanged library does; it is counted
+// as an observation, not raised as a violation.  Whatever the outcome, the map must stay a valid
+// dictionary, and a request that does fail must fail as External and change nothing.
+func (e *cbEnv) limitProbe() {
+	defer atree.VerifSetMaxCollisionLimitPerDigest(255)
+	for _, limit := range []uint32{0, 1} {
+		for failAt := 1; failAt <= 4; failAt++ {
+			for _, external := range []bool{false, true} {
+				e.limitProbeOne(limit, failAt, external)
+			}
+		}
+	}
+}
+
+func (e *cbEnv) limitProbeOne(limit uint32, failAt int, external bool) {
+	atree.VerifSetMaxCollisionLimitPerDigest(255)
+	ledger := hx.NewLedger()
+	ps := hx.NewStorage(ledger)
+	rec := hx.NewRecStorage(ps)
+	// every key has first-level digest 5; second level: payload/4 (the resident keys 4, 8, ... differ,
+	// the new key 4n+1 meets the last resident key there, so that the probe calls the comparator);
+	// third level: the key itself.  NOTE: the limit counts the elements of the first-level group at
+	// its own level (distinct second-level digests), not the keys below them.
+	b := &hx.TableDigesterBuilder{L: 3, Fn: func(k hx.TV, l uint) uint64 {
+		switch l {
+		case 0:
+			return 5
+		case 1:
+			return k.Pay / 4
+		}
+		return k.Pay
+	}}
+	m, err := atree.NewMap(rec, hx.MkAddr(1), b, hx.TI(3))
+	if err != nil {
+		e.st.HarnessErr = err.Error()
+		return
+	}
+	vsize := uint32(12)
+	if external {
+		_, _, _, _, maxElem, _ := atree.VerifThresholds()
+		vsize = maxElem / 2 // two members no longer fit inline: the group lives in its own slab
+	}
+	shadow := map[hx.TV]hx.TV{}
+	for i := uint64(1); i <= uint64(limit)+1; i++ {
+		k, v := hx.TV{Size: 9, Pay: 4 * i}, hx.TV{Size: vsize, Pay: i}
+		if _, err := m.Set(hx.CompareKey, hx.HashInput, k, v); err != nil {
+			e.st.HarnessErr = "limit probe setup: " + err.Error()
+			return
+		}
+		shadow[k] = v
+	}
+	atree.VerifSetMaxCollisionLimitPerDigest(limit)
+	snap := func() string { return hx.DumpTree(ps, atree.VerifMapRoot(m)) + "\n" + deltaKeys(ps) }
+	newKey := hx.TV{Size: 9, Pay: 4*(uint64(limit)+1) + 1} // collides on the first two levels with the last resident key
+	// control: with healthy callbacks the new key is refused and nothing changes
+	rec.Reset()
+	before := snap()
+	_, err = m.Set(hx.CompareKey, hx.HashInput, newKey, hx.TV{Size: vsize, Pay: 99})
+	e.st.Ops++
+	if hx.ErrKind(err) != "CollisionLimit:Fatal" {
+		e.viol(fmt.Sprintf("limit %d: a new colliding key was not refused with the collision-limit error: %s", limit, hx.ErrKind(err)))
+		return
+	}
+	e.st.Hit("limit-probe:control-refused")
+	if len(rec.Effs) != 0 || snap() != before {
+		e.viol(fmt.Sprintf("limit %d: the refused insert changed the map or the pending write set", limit))
+	}
+	// the same request with a component that fails exactly once
+	calls, fired := 0, false
+	cmp := func(s atree.SlabStorage, v atree.Value, st atree.Storable) (bool, error) {
+		calls++
+		if calls == failAt && !external {
+			fired = true
+			return false, errCallback
+		}
+		return hx.CompareKey(s, v, st)
+	}
+	rec.Reset()
+	rec.Retrieves, rec.FailRetrieveAt = 0, 0
+	if external {
+		rec.FailRetrieveAt = failAt
+	}
+	_, err = m.Set(cmp, hx.HashInput, newKey, hx.TV{Size: vsize, Pay: 99})
+	if external {
+		fired = rec.Retrieves >= rec.FailRetrieveAt
+		rec.FailRetrieveAt = 0
+	}
+	e.st.Ops++
+	comp := "comparator"
+	if external {
+		comp = "storage-read"
+	}
+	switch {
+	case !fired:
+		if hx.ErrKind(err) != "CollisionLimit:Fatal" {
+			e.viol(fmt.Sprintf("limit %d: a new colliding key was not refused: %s", limit, hx.ErrKind(err)))
+		}
+	case err == nil:
+		// the failure was swallowed by the probe and the key admitted past the limit
+		e.st.Hit("observation:" + comp + "-error-swallowed-in-limit-probe")
+		shadow[newKey] = hx.TV{Size: vsize, Pay: 99}
+	default:
+		e.st.Hit("limit-probe:" + comp + "-failure-reported")
+		if hx.ErrCategory(err) != "External" {
+			e.viol(fmt.Sprintf("limit %d: %s failure during the insert reported as %s", limit, comp, hx.ErrKind(err)))
+		}
+		if len(rec.Effs) != 0 || snap() != before {
+			e.viol(fmt.Sprintf("limit %d: the failed insert changed the map or the pending write set", limit))
+		}
+	}
+	// whatever happened, the map is still a valid dictionary with the expected content
+	if int(m.Count()) != len(shadow) {
+		e.viol(fmt.Sprintf("limit %d: count %d after the probe, dictionary has %d", limit, m.Count(), len(shadow)))
+	}
+	keys := make([]hx.TV, 0, len(shadow))
+	for k := range shadow {
+		keys = append(keys, k)
+	}
+	sort.Slice(keys, func(i, j int) bool { return keys[i].Pay < keys[j].Pay })
+	for _, k := range keys {
+		v, err := m.Get(hx.CompareKey, hx.HashInput, k)
+		if tv, _ := v.(hx.TV); err != nil || tv != shadow[k] {
+			e.viol(fmt.Sprintf("limit %d: get(%v) after the probe = %v, %v; dictionary has %v", limit, k, v, err, shadow[k]))
+		}
+	}
+	if err := atree.VerifyMap(m, hx.MkAddr(1), hx.TI(3), func(a, b atree.TypeInfo) bool { return a == b }, hx.HashInput, true); err != nil {
+		e.viol(fmt.Sprintf("limit %d: VerifyMap after the probe: %v", limit, err))
+	}
+}
+
+// afterLookupFailure: a storage read failed after the request's lookup phase.  The property only asks
+// for the External category here ("an error raised by a caller-supplied component during a lookup");
+// on the unchanged library the request is left half-applied (counted as an observation, not raised).
+func (e *cbEnv) afterLookupFailure(what string, err error) {
+	e.st.Ops++
+	e.rec.Reset()
+	if err == nil {
+		e.viol(what + ": the storage read failed but the request succeeded")
+		return
+	}
+	if hx.ErrCategory(err) != "External" {
+		e.viol(fmt.Sprintf("%s: storage read failure after the lookup reported as %s", what, hx.ErrKind(err)))
+	}
+	e.st.Hit("observation:storage-read-failure-after-lookup-leaves-partial-change")
+	e.poisoned = true
+}
+
+// partialChangeProbe (directed; observation, not raised): a Remove whose data slab underflows fetches
+// a sibling to merge or rebalance with AFTER the element has been taken out and the data slab stored.
+// When that read fails the error is returned as External, but the removal is half applied: the slab
+// without the element stays in the write set, the parent keeps the stale header in storage and the
+// element count is not decremented.  Outside C18's text (the failure is not "during a lookup", the
+// request is not rejected because of its arguments); the probe asserts the category and records what
+// is left behind.
+func (e *cbEnv) partialChangeProbe() {
+	atree.VerifSetThreshold(256)
+	defer atree.VerifSetThreshold(1024)
+	for _, container := range []string{"map", "array"} {
+		ledger := hx.NewLedger()
+		ps := hx.NewStorage(ledger)
+		rec := hx.NewRecStorage(ps)
+		b := &hx.TableDigesterBuilder{L: 2, Fn: func(k hx.TV, l uint) uint64 { return k.Pay*1000 + uint64(l) }}
+		m, err := atree.NewMap(rec, hx.MkAddr(1), b, hx.TI(3))
+		if err != nil {
+			e.st.HarnessErr = err.Error()
+			return
+		}
+		a, _ := atree.NewArray(rec, hx.MkAddr(1), hx.TI(4))
+		const n = 60
+		for i := 1; i <= n; i++ {
+			if _, err := m.Set(hx.CompareKey, hx.HashInput, hx.TV{Size: 9, Pay: uint64(i)}, hx.TV{Size: 20, Pay: uint64(i)}); err != nil {
+				e.st.HarnessErr = "partial-change probe setup: " + err.Error()
+				return
+			}
+			_ = a.Append(hx.TV{Size: 30, Pay: uint64(i)})
+		}
+		seen := false
+		for i := 1; i <= n && !seen; i++ {
+			rec.Reset()
+			rec.Retrieves, rec.FailRetrieveAt, rec.EffsAtFail = 0, 2, 0 // read 1: the data slab on the path; read 2: a sibling
+			if container == "map" {
+				_, _, err = m.Remove(hx.CompareKey, hx.HashInput, hx.TV{Size: 9, Pay: uint64(i)})
+			} else {
+				_, err = a.Remove(0)
+			}
+			fired := rec.Retrieves >= 2
+			rec.FailRetrieveAt = 0
+			e.st.Ops++
+			switch {
+			case !fired && err != nil:
+				e.viol(fmt.Sprintf("partial-change probe: %s.Remove failed without an injected failure: %v", container, err))
+				return
+			case !fired:
+				continue
+			case err == nil:
+				e.viol(fmt.Sprintf("partial-change probe: a storage read failed during %s.Remove but the request succeeded", container))
+				return
+			}
+			if hx.ErrCategory(err) != "External" {
+				e.viol(fmt.Sprintf("partial-change probe: storage read failure during %s.Remove reported as %s", container, hx.ErrKind(err)))
+			}
+			if rec.EffsAtFail == 0 {
+				continue // failed during the descent (deeper tree): nothing may have changed; covered by the trials
+			}
+			seen = true
+			e.st.Hit("partial-change-probe:" + container + ".Remove")
+			e.st.Hit("observation:storage-read-failure-after-lookup-leaves-partial-change")
+			left := ""
+			if container == "map" {
+				cnt := 0
+				_ = m.IterateReadOnly(func(k, v atree.Value) (bool, error) { cnt++; return true, nil })
+				verr := atree.VerifyMap(m, hx.MkAddr(1), hx.TI(3), func(a, b atree.TypeInfo) bool { return a == b }, hx.HashInput, true)
+				left = fmt.Sprintf("Count()=%d, elements reachable=%d, storage calls made: %s, VerifyMap: %v", m.Count(), cnt, hx.NetEffect(rec.Effs), verr != nil)
+			} else {
+				cnt := 0
+				_ = a.IterateReadOnly(func(v atree.Value) (bool, error) { cnt++; return true, nil })
+				verr := atree.VerifyArray(a, hx.MkAddr(1), hx.TI(4), func(a, b atree.TypeInfo) bool { return a == b }, nil, true)
+				left = fmt.Sprintf("Count()=%d, elements reachable=%d, storage calls made: %s, VerifyArray: %v", a.Count(), cnt, hx.NetEffect(rec.Effs), verr != nil)
+			}
+			if e.p == 0 {
+				e.st.Samples = append(e.st.Samples, fmt.Sprintf("observation (not raised): %s.Remove whose sibling read fails after the element was taken out returns %s and leaves: %s", container, hx.ErrKind(err), left))
+			}
+		}
+	}
 }
